@@ -1031,14 +1031,6 @@ func (client *client) publishHandler(pub *packets.Publish) *codes.Error {
 		}
 	}
 
-	if pub.Retain {
-		if len(pub.Payload) == 0 {
-			srv.retainedDB.Remove(msg.Topic)
-		} else {
-			srv.retainedDB.AddOrReplace(msg.Copy())
-		}
-	}
-
 	var err error
 	var topicMatched bool
 	if !dup {
@@ -1054,6 +1046,15 @@ func (client *client) publishHandler(pub *packets.Publish) *codes.Error {
 			opts = req.IterationOptions
 		}
 		if msg != nil && err == nil {
+			// the retained store sees what the hook decided: nothing if the message was
+			// rejected or dropped, the rewritten message if it was rewritten
+			if pub.Retain {
+				if len(msg.Payload) == 0 {
+					srv.retainedDB.Remove(msg.Topic)
+				} else {
+					srv.retainedDB.AddOrReplace(msg.Copy())
+				}
+			}
 			topicMatched = client.deliverMessage(client.opts.ClientID, msg, opts)
 		}
 	}
